@@ -2,6 +2,7 @@
    Only statements, each closed by [exact] of a lemma proved in Proofs/, and Print Assumptions. *)
 From DV Require Import Base.Prelude Base.Int Base.BitPack Model.Block Model.Downres
      Model.BlockOps Proofs.BitPack Proofs.Block Proofs.BlockOps Proofs.Downres Proofs.DownresBlock Proofs.DownresLocks Gen.Consts Gen.DownresLocks.
+From DV Require Import Model.DownresPyr Proofs.DownresPyr Gen.DownresArith.
 From Coq Require Import Permutation.
 Local Open Scope N_scope.
 
@@ -115,3 +116,64 @@ Print Assumptions C14_updates_serialised.
 (* Non-vacuity: a concrete pyramid (constant levels) satisfies Pyr. *)
 Example C14_pyr_inhabited : Pyr (fun _ _ _ _ => 3) 5.
 Proof. intros n _ x y z. reflexivity. Qed.
+
+(* ---------------- Round 4: the BLOCK-level update is the voxel-wise update ---------------- *)
+
+(* The arithmetic of getHiresChanges and the receiver choice of downresOctant, REGENERATED from
+   datatype/labelmap/downres.go on every run (harness/cmd/gen/gen_c14_arith.go -> Gen/DownresArith.v):
+   for every block coordinate in Z^3 the generated parent is the floor-halved coordinate, the
+   generated octant slot is the repaired octant index of the model, and the stored parent is the
+   receiver exactly when fewer than 8 octants are given. *)
+Theorem C14_hires_arith_generated : forall x y z,
+  g_hires_parent x y z = (parent_coord x, parent_coord y, parent_coord z) /\
+  g_hires_octidx x y z = octant_index true x y z /\
+  (g_hires_octidx x y z = 4 * (z mod 2) + 2 * (y mod 2) + x mod 2)%Z /\
+  g_downres_stored_below = 8%Z.
+Proof.
+  exact (fun x y z => conj (g_parent_eq x y z) (conj (g_octidx_eq x y z) (conj (g_octidx_form x y z) g_stored_below_8))).
+Qed.
+Print Assumptions C14_hires_arith_generated.
+
+(* Mutation.Execute at block level (Model/DownresPyr.v bexec: for each changed block of a scale the
+   generated parent and octant slot, eight slots nil where nothing changed, the stored parent block
+   as receiver unless all eight are given, Block.Downres, the result stored and handed to the next
+   scale) computes at EVERY level n <= max and EVERY voxel of Z^3 exactly the voxel-wise update
+   [after] of C14_pyr_execute — for every block half-edge h > 0, every function DR on label arrays
+   that satisfies what C14_block_downres proves of Block.Downres (DR_spec), every set chg0 of
+   changed level-0 blocks (a map: distinct keys; any coordinates, negative included; any content of
+   the block's size), every stored pyramid St of blocks of that size, every max; the block-level
+   run never panics (the octant slot is always inside the [8] array). *)
+Theorem C14_block_update_is_voxel_update : forall h, (0 < h)%Z ->
+  forall DR, DR_spec h DR ->
+  forall chg0 St, NoDup (map fst chg0) -> (forall c a, In (c, a) chg0 -> wfa h a) -> (forall n p, wfa h (St n p)) ->
+  forall max, exists F, block_levels_are h DR chg0 St F max /\
+    forall n, (n <= max)%nat -> forall x y z,
+      view (2 * h) (F n) x y z =
+      after (2 * h) (touched chg0) (fun k => view (2 * h) (St k)) (view (2 * h) (put_all (St O) chg0)) max n x y z.
+Proof. exact block_exec_is_voxel_exec. Qed.
+Print Assumptions C14_block_update_is_voxel_update.
+
+(* Hence: if the stored pyramid satisfies Pyr, then after the block-level update every voxel of every
+   level n+1 (n < max) is the documented vote over the 2x2x2 voxels beneath it at level n. *)
+Theorem C14_block_pyramid : forall h, (0 < h)%Z ->
+  forall DR, DR_spec h DR ->
+  forall chg0 St, NoDup (map fst chg0) -> (forall c a, In (c, a) chg0 -> wfa h a) -> (forall n p, wfa h (St n p)) ->
+  forall max, Pyr (fun k => view (2 * h) (St k)) max ->
+  exists F, block_levels_are h DR chg0 St F max /\ Pyr (fun k => view (2 * h) (F k)) max.
+Proof. exact block_exec_pyr. Qed.
+Print Assumptions C14_block_pyramid.
+
+(* DR_spec is inhabited: the executable array-level Block.Downres of the model (the one the c14
+   driver's block-level histories are evaluated with) satisfies it for every block size. *)
+Theorem C14_dr_arr_spec : forall h, (0 < h)%Z -> DR_spec h (dr_arr (2 * h)).
+Proof. exact dr_arr_ok. Qed.
+Print Assumptions C14_dr_arr_spec.
+
+(* Non-vacuity of the hypotheses of the two theorems above: 8^3 blocks, an all-zero stored pyramid
+   (which satisfies Pyr), one changed block at a negative odd coordinate. *)
+Example C14_block_pyramid_inhabited :
+  let St := fun (_ : nat) (_ : coord) => repeat 0 512 in
+  let chg0 := [(((-3)%Z, (-1)%Z, 0%Z), repeat 5 512)] in
+  DR_spec 4 (dr_arr 8) /\ NoDup (map fst chg0) /\ (forall c a, In (c, a) chg0 -> wfa 4 a) /\
+  (forall n p, wfa 4 (St n p)) /\ Pyr (fun k => view 8 (St k)) 3%nat.
+Proof. exact block_pyramid_inhabited. Qed.
